@@ -100,7 +100,7 @@ func TestC02_NeverEarly(t *testing.T) {
 	rec.AddRule("rapid state machine over one Shutter-service keyper (verif-tagged constructor, real trigger decision code, real KeyShareHandler and service middleware behind the trigger channel, real schema on pgfake): 1-3 keyper sets (member / not member, distinct and equal activation blocks), eons {none, pending, failed, succeeded, failed-then-restarted pending|succeeded}, time-registered identities with release times at tau-1 / tau / tau+1 around the generated block times, event-trigger registrations with and without a fired_triggers row, decrypted flags; actions: new block (number, time; non-monotone times allowed), register identity, DKG event (eon row / dkg_result row appears), keys released (real keys handler -> decrypted flags), restart (new Keyper object on the same database). Oracle (safety): every identity of every trigger put on the channel while processing block (N, tau), and of every DecryptionKeyShares message handed to SendMessage, satisfies the statement's release condition in the model; identities of a trigger are strictly increasing; a share message names the keyper set the identity was registered for. non-trivial = a block whose time equals a pending release time, or processed while the identity's set has a failed/pending newest eon, or a restart between registration and release; distinct by history")
 	rec.Assume("pgfake; fired_triggers rows are written by the harness only for logs within the trigger's lifetime (producing them from chain logs is C16's subject)")
 	ctx := context.Background()
-	runRapid(t, N(150, 2000), func(rt *rapid.T) {
+	runRapid(t, N(600, 8000), func(rt *rapid.T) {
 		me := 0
 		node := newSimNode(flService, me, 8)
 		defer node.Close()
